@@ -65,6 +65,9 @@ class Lib:
     def getattr(self, ns, name):
         from .interp import LibNS
         path = ns.path + '.' + name
+        if path == 'numpy.ndarray':
+            from .interp import TypeVal
+            return TypeVal('ndarray')
         if path in self.table:
             return self.table[path]
         mod = real_module(ns.path)
